@@ -107,12 +107,12 @@ struct layout_transpose {
             requires(is_always_strided())
         {
             if (r == Extents::rank() - 1) {
-                return _nestedMapping.stride(r - 2);
+                return static_cast<size_type>(_nestedMapping.stride(r - 1));
             }
             if (r == Extents::rank() - 2) {
-                return _nestedMapping.stride(r - 1);
+                return static_cast<size_type>(_nestedMapping.stride(r + 1));
             }
-            return _nestedMapping.stride(r);
+            return static_cast<size_type>(_nestedMapping.stride(r));
         }
 
         template <typename OtherExtents>
